@@ -49,6 +49,38 @@ check("C17", "model_checking",
       "Boundary grid per hyperparameter: below, boundary, interior, above, NaN, +-inf; 3 baselines.",
       "TLA+ decision table (Ctor/CtorMC) checked by TLC + spec-as-oracle conformance against the real constructor", "DESIGN.md §5 C17")
 
+_OPT_NOTE = ("Trusted: TLC; the float64 closed-form reference (harness/refopt.py, no repo imports) for numbers; torch semantics. "
+             "Exhaustive only within the stated call/block bounds; concrete draws are sampled (seeded).")
+check("C01", "model_checking",
+      "spec/ShampooStep+ShampooOpt model the step as provenance over buffers; TLC checks RefreshTiming / RefreshComplete / OncePerStep / "
+      "StepCounter over all mask histories, refresh schedules and hyper-schedule changes within bounds. TLC-simulated behaviours are replayed "
+      "into the real optimizer and every state tensor is compared with a float64 reference whose control decisions are read from the TLC "
+      "states; observed traces are validated by TLC (ShampooTrace); two-group runs are compared bitwise with separate optimizers.",
+      _OPT_NOTE, "TLA+ spec model-checked by TLC + behaviour replay with spec-driven numeric reference + TLC trace validation", "DESIGN.md §5 C01")
+check("C02", "model_checking",
+      "ShampooOpt with Graft=TRUE generates warm-up lengths and mask histories (TLC); each is replayed on the real optimizer and on the "
+      "corresponding torch.optim optimizer over the unblocked parameters (rtol 1e-12, dyadic hyperparameters); after the switch the per-block "
+      "step norm and direction are checked; traces (use-graft flag per step) are validated by TLC.",
+      "torch.optim 2.5.1 is the oracle for the warm-up phase. " + _OPT_NOTE,
+      "TLA+ spec (phase switch) checked by TLC + replay against torch.optim + TLC trace validation", "DESIGN.md §5 C02")
+check("C03", "model_checking",
+      "Kind=soap in ShampooStep: basis refresh schedule with per-factor failures, BasisUse (rotate iff every basis exists) checked by TLC; "
+      "replays check every stored basis at every refresh (orthonormal, diagonalising / QR update, ordering, written only on schedule) and "
+      "the rotated-Adam recurrences against the float64 reference given the stored bases; dtype pairings validated by TLC.",
+      _OPT_NOTE, "TLA+ spec model-checked by TLC + behaviour replay with basis-validity checks + TLC trace validation", "DESIGN.md §5 C03")
+check("C04", "model_checking",
+      "The mask mechanism (two selector caches, masked lists re-compressed on selector change) is modelled as coded; TLC checks Frame, "
+      "StepCounter, Alignment and absence of list-length crashes over every gradient-presence history x hyper schedule x fault script in "
+      "bounds; replays compare bitwise hashes of every tensor of every absent parameter, masked-list projections by tensor identity and "
+      "step counters (trace validated by TLC); numeric mismatches count only if they depend on the presence pattern.",
+      _OPT_NOTE, "TLA+ spec model-checked by TLC + behaviour replay (bitwise frame) + TLC trace validation", "DESIGN.md §5 C04")
+check("C13", "model_checking",
+      "The failure mechanism is modelled exactly as coded next to a ghost run-length; TLC checks RaiseIffRun, NoParamChangeOnRaise, "
+      "KeepPreviousOnFail over every outcome script x mask history x tolerance in bounds; replays inject scripted outcomes at the matrix "
+      "routines (keyed by the factor they are called for) and compare exception class, kept roots (bitwise), untouched parameters and "
+      "finiteness of stored roots; traces validated by TLC.",
+      _OPT_NOTE, "TLA+ spec model-checked by TLC (fault enumeration) + fault-injection replay + TLC trace validation", "DESIGN.md §5 C13")
+
 ALL = [f"C{i:02d}" for i in range(1, 19)]
 
 
